@@ -641,6 +641,28 @@ def rule_dtypeflow(R, modules=None):
                     n += 1
                     yield ob(R, f, "%s:out[%s]" % (f.qual, ",".join(sorted(tm.params_of(buf)))), False, "%s(..., out=<array with the dtype of its input %s>) stores a real-valued result in place: with integer input the ufunc cannot cast its output (UFuncTypeError) or truncates it" % (fn_, tm.show(buf, 2)), node=m.node)
             for c in s.calls():
+                # np.pad / np.insert / np.full_like keep the dtype of the array they start from: a value that is not an
+                # element of that array or an integer literal is cast to it (a fractional duration padded onto integer
+                # time stamps is truncated)
+                if c.callee in ("np.pad", "np.insert", "np.full_like") and c.args:
+                    arr = c.args[0]
+                    src_ = arr
+                    while src_.op == "call" and call_name(src_) in _INHERIT and src_.a[1] and not any(k == "dtype" for k, _ in src_.a[2]):
+                        src_ = src_.a[1][0]
+                    if src_.op == "param" and not any(k == "dtype" for k, _ in c.kw):
+                        vals = []
+                        if c.callee == "np.pad":
+                            v_ = dict(c.kw).get("constant_values")
+                            if v_ is not None:
+                                vals.append(v_)
+                        elif c.callee == "np.insert" and len(c.args) >= 3:
+                            vals.append(c.args[2])
+                        elif c.callee == "np.full_like" and len(c.args) >= 2:
+                            vals.append(c.args[1])
+                        for v_ in vals:
+                            good_ = (v_.op == "sub" and (v_.a[0] is arr or v_.a[0] is src_)) or _int_preserving(v_, arr) or (is_lit(v_) and isinstance(lit(v_), (int, bool))) or (is_lit(v_) and isinstance(lit(v_), float) and float(lit(v_)).is_integer())
+                            n += 1
+                            yield ob(R, f, "%s:%s[%s]" % (f.qual, c.callee.split(".")[-1], ",".join(sorted(tm.params_of(arr)))), good_, "%s keeps the dtype of %s and receives %s" % (c.callee, tm.show(arr, 2), "an integer literal or an element of that array" if good_ else "%s, which is cast to that dtype: truncated when the caller passes an integer array" % tm.show(v_, 3)), node=c.node)
                 if c.callee in ("np.asarray", "np.array", ".astype", "np.asanyarray", "np.zeros", "np.empty", "np.full"):
                     dt = dict(c.kw).get("dtype")
                     if dt is None and c.callee == ".astype" and len(c.args) > 1:
